@@ -1,0 +1,55 @@
+//go:build verif
+
+package xsort
+
+// Contracts for the deductive verifier in /verif (properties C01 (order adaptation), C19). Only
+// part of the build under the tag `verif`.
+
+//@ func Greater
+//@   props C19
+//@   requires less != nil
+//@   ensures result == less(b, a)
+
+//@ func LessOrEqual
+//@   props C19
+//@   requires less != nil
+//@   ensures result == !less(b, a)
+
+//@ func GreaterOrEqual
+//@   props C19
+//@   requires less != nil
+//@   ensures result == !less(a, b)
+
+//@ func Equal
+//@   props C19
+//@   requires less != nil
+//@   ensures result == (!less(a, b) && !less(b, a))
+
+//@ func Reverse
+//@   props C19
+//@   requires less != nil
+//@   ensures result != nil && (forall a T, b T {result(a, b)} :: result(a, b) == less(b, a))
+
+//@ func LessCompare
+//@   props C01 C19
+//@   requires less != nil
+//@   ensures result != nil && (forall a T, b T {result(a, b)} :: result(a, b) == (less(a, b) ? -1 : (less(b, a) ? 1 : 0)))
+
+// assumed contract of sort.Search: the least index in [0, n] from which f holds, for a monotone f
+//@ ext sort.Search(n, f) (r)
+//@   ispure
+//@   requires n >= 0 && f != nil
+//@   requires forall i int, j int {f(i), f(j)} :: 0 <= i && i <= j && j < n && f(i) ==> f(j)
+//@   ensures 0 <= r && r <= n && (r < n ==> f(r)) && (forall i int {f(i)} :: 0 <= i && i < r ==> !f(i))
+
+//@ pred sortedBy(x, less) = forall i int, j int {x[i], x[j]} :: 0 <= i && i <= j && j < len(x) ==> !less(x[j], x[i])
+//@ pred swoL(less, x) = (forall a typeof(x[0]) {less(a, a)} :: !less(a, a))
+//@   && (forall a typeof(x[0]), b typeof(x[0]), c typeof(x[0]) {less(a, b), less(b, c)} :: less(a, b) && less(b, c) ==> less(a, c))
+//@   && (forall a typeof(x[0]), b typeof(x[0]), c typeof(x[0]) {less(a, b), less(b, c)} :: !less(a, b) && !less(b, c) ==> !less(a, c))
+
+//@ func Search
+//@   props C19
+//@   requires less != nil && swoL(less, x) && sortedBy(x, less)
+//@   ensures 0 <= result && result <= len(x)
+//@   ensures forall i int {x[i]} :: 0 <= i && i < result ==> less(x[i], item)
+//@   ensures forall i int {x[i]} :: result <= i && i < len(x) ==> !less(x[i], item)
